@@ -88,6 +88,10 @@ fn describe(wasm: &[u8]) -> Result<Sig> {
     };
     let func_name_of = |idx: u32| -> String { names.iter().find(|n| n.0 == "func" && n.1 == idx).map(|n| n.3.clone()).unwrap_or(format!("#{idx}")) };
     for (kind, idx, sub, name) in &names {
+        // a name for an entity that does not exist (tools are known to leave such entries behind) is attached to nothing
+        let n_of = |k: &str| -> usize { match k { "func" | "local" => func_types.len(), "type" => types.len(), "table" => tables.len(), "memory" => mems.len(),
+            "global" => globals.len(), "elem" => elems.len(), "data" => datas.len(), _ => usize::MAX } };
+        if (*idx as usize) >= n_of(kind.as_str()) { continue; }
         let attr = match kind.as_str() {
             "func" => func_attr(*idx),
             "type" => types.get(*idx as usize).cloned().unwrap_or("?".into()),
@@ -169,11 +173,14 @@ pub fn names(args: &[String]) -> Result<Value> {
     std::panic::set_hook(Box::new(|_| {}));
     let mut failures = vec![];
     let mut checked = 0;
-    for (name, text) in CORPUS {
+    let mut inputs: Vec<(String, String, Vec<u8>)> = vec![];
+    for (name, text) in CORPUS { inputs.push((name.to_string(), text.to_string(), wat::parse_str(text)?)); }
+    for (name, wasm) in stray_entry_cases()? { inputs.push((name, "(hand-built name section)".to_string(), wasm)); }
+    for (name, text, wasm) in &inputs {
         if !args.is_empty() && !args.iter().any(|a| a == name) { continue; }
         for scenario in ["emit", "gc+emit"] {
             checked += 1;
-            let wasm = wat::parse_str(text)?;
+            let wasm = wasm.clone();
             let w2 = wasm.clone();
             let r = std::panic::catch_unwind(move || -> Result<Option<Value>> {
                 let mut config = walrus::ModuleConfig::new();
@@ -206,4 +213,42 @@ pub fn names(args: &[String]) -> Result<Value> {
         }
     }
     Ok(json!({"violated": !failures.is_empty(), "cases_checked": checked, "failures": failures}))
+}
+
+
+/// name sections with entries for entities that do not exist (out-of-range indices) in one subsection: the names of the OTHER entities,
+/// in that subsection and in every later one, must still come through
+fn stray_entry_cases() -> Result<Vec<(String, Vec<u8>)>> {
+    fn leb(mut n: u32, out: &mut Vec<u8>) { loop { let b = (n & 0x7f) as u8; n >>= 7; if n == 0 { out.push(b); break } else { out.push(b | 0x80) } } }
+    fn name_map(entries: &[(u32, &str)]) -> Vec<u8> { let mut v = vec![]; leb(entries.len() as u32, &mut v); for (i, n) in entries { leb(*i, &mut v); leb(n.len() as u32, &mut v); v.extend_from_slice(n.as_bytes()); } v }
+    fn sub(id: u8, payload: Vec<u8>) -> Vec<u8> { let mut v = vec![id]; leb(payload.len() as u32, &mut v); v.extend(payload); v }
+    let base = wat::parse_str(r#"(module (type (func (param i32))) (memory 1) (table 2 funcref) (global i32 (i32.const 10)) (global i32 (i32.const 11))
+        (func (type 0) (local i32) (local.set 1 (i32.const 100)) (drop (local.get 0))) (func (type 0) (i32.const 7) (drop))
+        (data (i32.const 0) "ab") (elem (i32.const 0) func 0) (export "f" (func 0)) (export "g" (func 1)) (export "g0" (global 0)) (export "g1" (global 1))
+        (export "m" (memory 0)) (export "t" (table 0)))"#)?;
+    // (wat writes no name section for a module without identifiers)
+    let mut out = vec![];
+    let variants: Vec<(&str, Vec<Vec<u8>>)> = vec![
+        ("stray-function-in-locals-subsection", vec![
+            sub(1, name_map(&[(0, "first"), (1, "second")])),
+            sub(2, { let mut v = vec![]; leb(2, &mut v); leb(0, &mut v); v.extend(name_map(&[(0, "param"), (1, "local")])); leb(99, &mut v); v.extend(name_map(&[(0, "nobody")])); v }),
+            sub(5, name_map(&[(0, "tab")])), sub(6, name_map(&[(0, "mem")])), sub(7, name_map(&[(0, "glob0"), (1, "glob1")])),
+            sub(8, name_map(&[(0, "seg_e")])), sub(9, name_map(&[(0, "seg_d")])) ]),
+        ("stray-entries-in-every-map", vec![
+            sub(1, name_map(&[(0, "first"), (1, "second"), (50, "nobody")])),
+            sub(2, { let mut v = vec![]; leb(1, &mut v); leb(0, &mut v); v.extend(name_map(&[(0, "param"), (1, "local"), (40, "nobody")])); v }),
+            sub(5, name_map(&[(0, "tab"), (9, "nobody")])), sub(6, name_map(&[(0, "mem"), (9, "nobody")])), sub(7, name_map(&[(0, "glob0"), (1, "glob1"), (9, "nobody")])),
+            sub(8, name_map(&[(0, "seg_e"), (9, "nobody")])), sub(9, name_map(&[(0, "seg_d"), (9, "nobody")])) ]),
+    ];
+    for (n, subs) in variants {
+        let mut payload = vec![];
+        leb(4, &mut payload); payload.extend_from_slice(b"name");
+        for s in subs { payload.extend(s); }
+        let mut m = base.clone();
+        m.push(0);
+        leb(payload.len() as u32, &mut m);
+        m.extend(payload);
+        out.push((n.to_string(), m));
+    }
+    Ok(out)
 }
